@@ -12,7 +12,7 @@
 (* partial: outside the domain the properties quantify over the slot is     *)
 (* Unspec and only C01 (some slot, no panic) applies.                       *)
 (***************************************************************************)
-EXTENDS Env, Radix, TLC
+EXTENDS Env, Money, TLC
 
 ArithMeaning(toks) ==
   IF DateLike(toks) THEN Unspec
@@ -70,6 +70,12 @@ LineMeaning(ctx, line) ==
     [] line.form = "radix_lit"   -> [slot |-> IntVal(line.bits, 0), env |-> ctx.env]
     [] line.form = "radix_arith" -> [slot |-> IntVal(AddSmall(line.bits, line.add), 0), env |-> ctx.env]
     [] line.form = "radix_conv"  -> [slot |-> IntVal(RoundQ(line.bits, line.q), line.target), env |-> ctx.env]
+    [] line.form = "pct_phrase" -> [slot |-> SameKind(line.x, PctPhrase(line.w, line.p, line.x.q)), env |-> ctx.env]
+    [] line.form = "pct_what"   -> [slot |-> IF line.a.cur = line.b.cur THEN Pct(PctWhat(line.a.q, line.b.q)) ELSE Unspec, env |-> ctx.env]
+    [] line.form = "pct_total"  -> [slot |-> SameKind(line.a, PctTotal(line.a.q, line.p)), env |-> ctx.env]
+    [] line.form = "money_lit"  -> [slot |-> Money(line.x.q, line.x.cur), env |-> ctx.env]
+    [] line.form = "money_conv" -> [slot |-> Convert(ctx.calc, line.x.q, line.x.cur, line.target), env |-> ctx.env]
+    [] line.form = "money_arith" -> [slot |-> MoneyArith(ctx.calc, line.l, line.op, line.r), env |-> ctx.env]
     [] line.form = "shape"   -> [slot |-> Unspec, env |-> ctx.env]
     [] OTHER                 -> [slot |-> Unspec, env |-> ctx.env]
 
@@ -87,7 +93,9 @@ DefaultCalc ==
    tz  |-> [name |-> "UTC", off |-> 0],
    rates |-> <<>>,        \* rate overrides set through update_currency: sequence of [cur, q]
    rules |-> <<>>,        \* registered custom rules in registration order (C18)
-   fams  |-> <<>>]        \* user-defined unit families (C18)
+   fams  |-> <<>>,        \* user-defined unit families (C18)
+   alias |-> <<>>,        \* configured currency alias table: spelling -> code (handed in by the driver)
+   codes |-> {}]          \* configured currency codes
 
 \* macro-step of the evaluation loop: one slot per line, in order; an erroneous line does not stop it
 RECURSIVE RunLines(_, _, _)
@@ -112,6 +120,7 @@ SlotMatches(exp, obs) ==
   ELSE IF exp.k = "notkind" THEN obs.k \in SlotKinds /\ obs.k # exp.kind
   ELSE IF exp.k = "int" THEN /\ obs.k = "num" /\ Has(obs, "bits") /\ obs.bits = exp.bits
                              /\ (exp.base # 0 => Has(obs, "pr") /\ obs.pr = <<exp.base, PrintBase(exp.bits, exp.base)>>)
+  ELSE IF exp.k = "term" THEN obs.k = exp.kind /\ (exp.kind = "money" => obs.cur = exp.cur)   \* the driver evaluates the term
   ELSE IF exp.k = "ts" THEN obs.k = "num" /\ Has(obs, "ts") /\ obs.ts = <<exp.d, exp.s>> /\ (Has(obs, "pr") => obs.pr = <<exp.d, exp.s>>)
   ELSE Matches(exp, obs) /\ PrintMatches(exp, obs)
 SlotMatchesCtx(ctx, exp, obs) == SlotMatches(exp, obs) /\ PrintMatchesCtx(ctx, exp, obs)
